@@ -12,8 +12,8 @@ from . import meshes
 
 # kind -> formats it can be exported to
 FORMATS = {
-    "mesh": ["stl", "stl_ascii", "ply", "ply_ascii", "off", "obj", "obj_mtl", "glb", "gltf", "3mf", "dae", "dict", "dict64", "zip_stl", "zip_ply", "targz_obj", "zip_obj_mtl"],
-    "scene": ["glb", "gltf", "3mf", "dict", "zip_glb"],
+    "mesh": ["stl", "stl_ascii", "ply", "ply_ascii", "off", "obj", "obj_mtl", "glb", "gltf", "3mf", "dae", "dict", "dict64", "zip_stl", "zip_ply", "targz_obj", "zip_obj_mtl", "tarbz2_ply", "bz2_stl"],
+    "scene": ["glb", "gltf", "3mf", "dict", "zip_glb", "obj", "stl", "ply"],
     "points": ["ply", "xyz", "glb"],
     "path2d": ["dxf", "svg", "dict"],
     "path3d": ["dict", "glb"],
@@ -22,6 +22,8 @@ FORMATS = {
 ALL_PAIRS = [(k, f) for k, fs in FORMATS.items() for f in fs]
 FLOAT32 = {"stl", "ply", "glb", "gltf", "zip_stl", "zip_ply", "zip_glb", "binvox"}
 EXACT = {"dict", "dict64"}
+# scene exporters that write one flattened mesh (or one object per instance) in world coordinates: the instance structure is not stored
+FLATTENS = {"obj", "stl", "ply"}
 
 
 class SimFile(io.BytesIO):
@@ -320,7 +322,12 @@ def export_payload(obj, fmt, opts=None):
         else:
             d = obj.export(file_type=fmt)
         return {"model." + fmt: json.dumps(d, default=lambda o: o.tolist() if hasattr(o, "tolist") else str(o)).encode()}, "model." + fmt, fmt
-    if fmt.startswith("zip_") or fmt.startswith("targz_"):
+    if fmt.startswith("bz2_"):
+        import bz2
+
+        files, main, ft = export_payload(obj, fmt.split("_", 1)[1], opts)
+        return {main + ".bz2": bz2.compress(files[main])}, main + ".bz2", "bz2"
+    if fmt.startswith("zip_") or fmt.startswith("targz_") or fmt.startswith("tarbz2_"):
         inner = fmt.split("_", 1)[1]
         files, main, ft = export_payload(obj, inner, opts)
         buf = io.BytesIO()
@@ -333,12 +340,13 @@ def export_payload(obj, fmt, opts=None):
             return {"archive.zip": buf.getvalue()}, "archive.zip", "zip"
         import tarfile
 
-        with tarfile.open(fileobj=buf, mode="w:gz") as t:
+        bz = fmt.startswith("tarbz2_")
+        with tarfile.open(fileobj=buf, mode="w:bz2" if bz else "w:gz") as t:
             for n, b in sorted(files.items()):
                 info = tarfile.TarInfo(n)
                 info.size = len(b)
                 t.addfile(info, io.BytesIO(b))
-        return {"archive.tar.gz": buf.getvalue()}, "archive.tar.gz", "tar.gz"
+        return ({"archive.tar.bz2": buf.getvalue()}, "archive.tar.bz2", "tar.bz2") if bz else ({"archive.tar.gz": buf.getvalue()}, "archive.tar.gz", "tar.gz")
     if fmt == "glb" and isinstance(obj, trimesh.path.path.Path):
         # a path is exported to glTF through a scene
         data = trimesh.Scene(obj).export(file_type="glb")
@@ -397,6 +405,9 @@ def load_payload(files, main, ft, route="load", transport="bytesio", scratch=Non
     resolver = None
     if len(files) > 1:
         resolver = SimResolver({k: v for k, v in files.items()})
+    if ft == "bz2" and transport == "bytesio":
+        # a bare bz2 stream says nothing about what it holds: the loader takes the inner type from the name of the file object
+        transport = "simfile"
     if transport == "path":
         import os
 
